@@ -431,28 +431,29 @@ structure TcpOut where
   step : Step
   elapsed : Nat
 
-/-- sockets still tracked when `_recv` is entered, after whatever it does about them first -/
+/-- what `_recv` does, before it accepts, about sockets that are still tracked (requests that got no reply) -/
 def tcpStale (conn : List Nat) : List Nat := if Gen.tcpRecvClosesUnreplied then [] else conn
 
 /-- `self._connected_sockets[addrinfo] = sock2` -/
 def tcpTrack (conn : List Nat) (peer : Nat) : List Nat := if conn.contains peer then conn else conn ++ [peer]
 
-/-- `_send` pops and closes the socket; nothing else does -/
+/-- `_send` pops and closes the socket -/
 def tcpAfter (conn : List Nat) (peer : Nat) (s : Step) : List Nat :=
   if s.reply.isSome then conn.erase peer else conn
 
-/-- one iteration of `_work` of the TCP registry; `fdLimit` = how many accepted sockets the process can
-hold open at once -/
+/-- One iteration of `_work` of the TCP registry, from one wait in `accept` to the next (so `conn` is what is
+tracked while the registry waits: the next `_recv` has already dealt with leftovers).  `fdLimit` = how many
+accepted sockets the process can hold open at once; with that many open, `accept` fails (EMFILE). -/
 def tcpStep (env : Env) (pruning : Int) (fdLimit : Nat) (ts : TcpSt) : TcpEv → TcpSt × TcpOut
   | .silent _ =>
-    if (tcpStale ts.conn).length < fdLimit then
+    if ts.conn.length < fdLimit then
       -- `sock2.settimeout(TIMEOUT)`, `recv` raises `socket.timeout`, the loop continues; the socket is dropped
       (⟨ts.sv, tcpStale ts.conn, ts.clock + Gen.tcpServerTimeoutMs⟩, ⟨true, idle ts.sv, Gen.tcpServerTimeoutMs⟩)
     else (⟨ts.sv, tcpStale ts.conn, ts.clock⟩, ⟨false, idle ts.sv, 0⟩)
   | .client peer host payload =>
-    if (tcpStale ts.conn).length < fdLimit then
+    if ts.conn.length < fdLimit then
       (⟨(workStep env pruning ts.sv host (payload.take Gen.maxDgramSize) ts.clock).sv,
-        tcpAfter (tcpTrack (tcpStale ts.conn) peer) peer (workStep env pruning ts.sv host (payload.take Gen.maxDgramSize) ts.clock),
+        tcpStale (tcpAfter (tcpTrack ts.conn peer) peer (workStep env pruning ts.sv host (payload.take Gen.maxDgramSize) ts.clock)),
         ts.clock⟩,
        ⟨true, workStep env pruning ts.sv host (payload.take Gen.maxDgramSize) ts.clock, 0⟩)
     else (⟨ts.sv, tcpStale ts.conn, ts.clock⟩, ⟨false, idle ts.sv, 0⟩)
